@@ -5,3 +5,4 @@ import Iggy.Props.C18
 #print axioms Iggy.Props.C18.dup_consumes_no_offset
 #print axioms Iggy.Props.C18.dedup_off_stores_all
 #print axioms Iggy.Props.C18.restart_rebuilds
+#print axioms Iggy.Props.C18.l1_ids_nodup
